@@ -298,6 +298,13 @@ def gen_cases(rng, tier):
                 out.append(case(cname + "-sigv-valid", "sig_verify", cname, sg, sec1(Q, rng.random() < .5), msg, False))
                 out.append(case(cname + "-sigv-mode-switch", "sig_verify", cname, sg, sec1(Q, True), msg + fl.to_bytes(4, "little"), True))
                 out.append(case(cname + "-sigv-mode-switch", "sig_verify", cname, sg, sec1(Q, True), msg + fl.to_bytes(4, "little"), False))
+                # plain message ending with the flag's 4-byte encoding: still hashed as msg || flag4
+                m3 = rng.randbytes(3) + fl.to_bytes(4, "little")
+                z3 = int.from_bytes(h256(m3 + fl.to_bytes(4, "little")), "big")
+                r3, s3 = ref_sign(cv, d, k, z3)
+                if s3:
+                    out.append(case(cname + "-sigv-msg-ends-with-flag", "sig_verify", cname, ref_der(r3, s3) + bytes([fl]), sec1(Q, True), m3, False))
+                    out.append(case(cname + "-sigv-msg-ends-with-flag", "sig_verify", cname, ref_der(r3, s3) + bytes([fl]), sec1(Q, True), m3[:-4], False))
                 out.append(case(cname + "-sigv-wrong-flag", "sig_verify", cname, sg[:-1] + bytes([fl ^ 2]), sec1(Q, True), msg, False))
                 out.append(case(cname + "-sigv-wrong-key", "sig_verify", cname, sg, sec1(rng.choice(pts), True), msg, False))
                 r_inf = (-zz * pow(d, -1, n)) % n
@@ -313,3 +320,9 @@ def gen_cases(rng, tier):
             out.append(case(cname + "-point-65-with-02", "point", cname, b"\x02" + sec1(Q, False)[1:], strict=True))
             out.append(case(cname + "-point-33-with-04", "point", cname, b"\x04" + sec1(Q, True)[1:], strict=True))
     return out
+
+
+# ops whose answer must not depend on the concrete bytes-like type of their arguments (they agree on the pinned tree;
+# tools/bytearray_probe.py); common.py re-runs a sample of their cases with bytearray arguments
+BYTEARRAY_OPS = {'point', 'low_s'}
+MEMORYVIEW_OPS = {'low_s', 'point'}
